@@ -9,6 +9,7 @@ Transcription of the resource-handling skeleton of
 * `src/kdumpfile/diskdump.c`: `diskdump_read_page` (every compression branch,
   including the methods that are not compiled in);
 * `src/kdumpfile/read.c`: `cache_get_page`, `cache_put_page`, `read_locked`;
+  `src/kdumpfile/diskdump.c`: `diskdump_get_page` (excluded frames refused before the cache lookup);
 * `src/kdumpfile/vtop.c`: `addrxlat_get_page`, `addrxlat_put_page`.
 
 Every function produces the *event trace* the C code produces at the cache and
@@ -402,6 +403,14 @@ def cacheGetPage (cfg : Cfg) (pol : Policy) (key pfn : Nat) (pg : PageInfo) (orc
       | ⟨.err s, e, o2⟩ => ⟨.err s, [.acq .pc key] ++ e ++ [.discard .pc key], o2⟩
   | _ => stuckOut orc
 
+/-- `diskdump_get_page`: with `file.zero_excluded` off, an excluded frame below
+`max_pfn` is refused *before* the cache lookup (the cache may still hold zeroes
+from the time the attribute was set), so no cache event happens; everything
+else goes through `cache_get_page(pio, diskdump_read_page)` -/
+def diskdumpGetPage (cfg : Cfg) (pol : Policy) (key pfn : Nat) (pg : PageInfo) (orc : List Ext) : Out Policy :=
+  if cfg.zeroExcluded = false ∧ pfn < cfg.maxPfn ∧ pg.pdpos.isNone = true then ⟨.err .nodata, [], orc⟩
+  else cacheGetPage cfg pol key pfn pg orc
+
 /-- `cache_put_page` = `fcache_put_chunk(&pio->chunk)` with `nent = 1` -/
 def cachePutPage (key : Nat) : List Ev := [.put .pc key]
 
@@ -416,7 +425,7 @@ def readLocked (cfg : Cfg) (pages : Nat → PageInfo) (as : Nat) :
       let pa := addr - addr % cfg.ps
       let key := pa ||| as
       let pfn := pa / cfg.ps
-      match cacheGetPage cfg pol key pfn (pages pfn) orc with
+      match diskdumpGetPage cfg pol key pfn (pages pfn) orc with
       | ⟨.stuck, _, _⟩ => stuckOut orc
       | ⟨.err s, e, o⟩ => ⟨.err s, e, o⟩
       | ⟨.ok pol', e, o⟩ =>
@@ -435,7 +444,7 @@ def readDelivered (cfg : Cfg) (pages : Nat → PageInfo) (as : Nat) :
     if remain = 0 then 0
     else
       let pa := addr - addr % cfg.ps
-      match cacheGetPage cfg pol (pa ||| as) (pa / cfg.ps) (pages (pa / cfg.ps)) orc with
+      match diskdumpGetPage cfg pol (pa ||| as) (pa / cfg.ps) (pages (pa / cfg.ps)) orc with
       | ⟨.ok pol', _, o⟩ =>
           let partlen := if cfg.ps - addr % cfg.ps > remain then remain else cfg.ps - addr % cfg.ps
           partlen + readDelivered cfg pages as fuel pol' (addr + partlen) (remain - partlen) o
@@ -451,7 +460,7 @@ def addrxlatGetPage (cfg : Cfg) (pol : Policy) (as addr : Nat) (pages : Nat → 
   | .alloc true :: o =>
       let pa := addr - addr % cfg.ps
       let key := pa ||| as
-      match cacheGetPage cfg pol key (pa / cfg.ps) (pages (pa / cfg.ps)) o with
+      match diskdumpGetPage cfg pol key (pa / cfg.ps) (pages (pa / cfg.ps)) o with
       | ⟨.stuck, _, _⟩ => stuckOut orc
       | ⟨.ok pol', e, o2⟩ => ⟨.ok pol', .malloc .pio cfg.pioSize true :: e, o2⟩
       | ⟨.err s, e, o2⟩ => ⟨.err s, .malloc .pio cfg.pioSize true :: e ++ [.free .pio cfg.pioSize], o2⟩
